@@ -489,12 +489,19 @@ def gen_streams(rng, tier, seed):
             legal = list(REF[state].keys())
             op = rng.choice(legal)
         else:
-            op = rng.choice(OPS + ['configure2', 'start_with_unknown', 'suspend_with_unknown'])
+            op = rng.choice(OPS + ['configure2', 'start_with_unknown', 'suspend_with_unknown', 'raw_open', 'raw_start', 'raw_suspend', 'raw_close', 'raw_close'])
         ops.append(op)
         nxt = REF[state].get(op)
         if nxt:
             state = nxt
+    if state == 'CONFIGURED' and rng.random() < 0.5:
+        ops.append('open_without_transport_then_abort')  # ends the history
     return {'ops': ops, 'profile': rng.choice(PROFILE_NAMES)}
+
+
+# protocol-level commands sent past the local Stream object (which would refuse them itself): where the acceptor must refuse them
+RAW_ILLEGAL = {'raw_open': ('IDLE', 'OPEN', 'STREAMING'), 'raw_start': ('IDLE', 'CONFIGURED', 'STREAMING'), 'raw_suspend': ('IDLE', 'CONFIGURED', 'OPEN'),
+               'raw_close': ('IDLE', 'CONFIGURED')}
 
 
 def _codec(a2dp, avdtp, source):
@@ -559,6 +566,52 @@ def run_streams(case):
                     break
                 done_ops += 1
                 continue
+            if op in RAW_ILLEGAL:
+                if ref not in RAW_ILLEGAL[op] or (ref == 'IDLE' and stream is not None and op == 'raw_open'):
+                    continue
+                seid = remote.seid
+                coro = {'raw_open': lambda: client.open(seid), 'raw_start': lambda: client.start([seid]), 'raw_suspend': lambda: client.suspend([seid]),
+                        'raw_close': lambda: client.close(seid)}[op]()
+                st, t = sim.run(coro, 60.0)
+                sim.loop.settle(vt_budget=10.0)
+                sim.probe('protocol_level_command_illegal_in_the_acceptor_state')
+                if st != 'done':
+                    sim.violation_once('stream-hang', f'stream:{op}-hangs:from={ref}', describe_task(t))
+                    t.cancel()
+                    break
+                rsp = None if t.exception() is not None else t.result()
+                accepted = rsp is not None and 'Reject' not in type(rsp).__name__
+                if accepted:
+                    sim.violation_once('stream-illegal', f'stream:illegal-{op}-accepted:from={ref}', f'{type(rsp).__name__}; sink now {sink_state()}')
+                    break
+                if sink_state() != before_snk:
+                    sim.violation_once('stream-illegal-change', f'stream:refused-{op}-changed-state:from={ref}', f'sink {before_snk}->{sink_state()}')
+                    break
+                done_ops += 1
+                continue
+            if op == 'open_without_transport_then_abort':
+                # Open accepted (legal in CONFIGURED) but the transport channel is never connected; then Abort: the end-point is free again
+                if ref != 'CONFIGURED' or stream is None:
+                    continue
+                st, t = sim.run(client.open(remote.seid), 60.0)
+                sim.loop.settle(vt_budget=5.0)
+                st2, t2 = sim.run(client.abort(remote.seid), 60.0)
+                sim.loop.settle(vt_budget=10.0)
+                sim.loop.advance(1.0)
+                sim.probe('abort_of_an_open_stream_without_transport_channel')
+                if st != 'done' or st2 != 'done':
+                    sim.violation_once('stream-hang', 'stream:open-without-transport-then-abort-hangs', describe_task(t if st != 'done' else t2))
+                    (t if st != 'done' else t2).cancel()
+                    break
+                if sink_state() != 'IDLE':
+                    sim.violation_once('stream-stuck', f'stream:sink-not-idle-after-abort:without-transport:{sink_state()}', 'Set Configuration, Open, Abort without a transport channel')
+                    break
+                st3, t3 = sim.run(client.create_stream(source2, remote), 60.0)
+                sim.loop.settle(vt_budget=5.0)
+                if st3 != 'done' or t3.exception() is not None:
+                    sim.violation_once('stream-stuck', 'stream:end-point-still-in-use-after-abort:without-transport', str(st3 if st3 != 'done' else repr(t3.exception())))
+                done_ops += 1
+                break
             if op in ('start_with_unknown', 'suspend_with_unknown'):
                 # a Start / Suspend naming the stream's end-point AND an end-point that does not exist: refused, nothing changes
                 if stream is None or ref not in ('OPEN', 'STREAMING'):
